@@ -214,7 +214,7 @@ def run_case(case):
     base = baseline()
     texts = case["texts"]
     label = case["label"]
-    positions = "+".join(sorted(texts))
+    positions = "+".join(sorted(texts)) if len(texts) == 1 else "position-pair"
     found = []
     seen = set()
 
